@@ -56,6 +56,8 @@ def one(seed, checks):
     finally:
         sh("git -C /repo worktree remove --force %s" % repo)
         shutil.rmtree(base, ignore_errors=True)
+    if NOSTORE:
+        return seed, {c: (d["exit"], str(d["replay_required"])[:110]) for c, d in det.items()}
     mp = os.path.join(V, "seeded", seed, "meta.json")
     meta = json.load(open(mp))
     old = meta.get("detected_by", {})
@@ -68,8 +70,15 @@ def one(seed, checks):
     return seed, {c: (d["exit"], str(d["replay_required"])[:110]) for c, d in det.items()}
 
 
+NOSTORE = False
+
+
 def main():
+    global NOSTORE
     args = sys.argv[1:]
+    if "--no-store" in args:
+        args.remove("--no-store")
+        NOSTORE = True
     j = 4
     checks = None
     ids = []
